@@ -105,10 +105,13 @@ def oracle_sub(seqs, rows, A):
     conflict = any(len(v) > 1 for v in named.values())
     if not ASSERT_CONFLICTING_SUBSTITUTIONS and conflict:
         return None, None, None
+    if conflict:
+        # two different characters for one position of one example cannot both be honoured: the last
+        # sentence of the statement asks for a refusal, not for a sequence in which one of the rows
+        # silently wins ("raises instead of returning a differently edited sequence")
+        return False, None, None
     after = [[named.get((n, p), {s[p]}) for p in range(L)] for n, s in enumerate(seqs)]
-    # conflicting rows cannot all be honoured: raising is accepted, and so is a one-hot result
-    # holding any one of the named characters (see the module docstring)
-    return ('either' if conflict else True), [list(s) for s in seqs], after
+    return True, [list(s) for s in seqs], after
 
 
 def oracle_del(seqs, rows, left):
@@ -186,7 +189,7 @@ def check_variant(case):
     out = []
     name = {'sub': 'substitution', 'del': 'deletion', 'ins': 'insertion'}[kind]
     if status == 'refuse':
-        return ['%s_effect returned although a row cannot be honoured (position / example / character out of range): after=%s'
+        return ['%s_effect returned although the variant list cannot be honoured (a position, example or character out of range, or two different characters for one position): after=%s'
                 % (name, _show(_decode(ya)) if isinstance(ya, torch.Tensor) and ya.dim() == 3 else type(ya).__name__)]
     if case.get('via') != 'predict':
         if len(rec.seen) != 2:
